@@ -334,23 +334,26 @@ impl NetcodeServer {
 
         log::trace!("Connection request from Client {}", connect_token.client_id);
 
-        let pending = self.pending_clients.entry(addr).or_insert_with(|| Connection {
-            confirmed: false,
-            sequence: 0,
-            client_id: connect_token.client_id,
-            last_packet_received_time: self.current_time,
-            last_packet_send_time: self.current_time,
+        // A request always (re)starts the handshake of its address: an entry left behind by an
+        // earlier request with a different connect token must not keep the old token's keys.
+        self.pending_clients.insert(
             addr,
-            state: ConnectionState::PendingResponse,
-            send_key: connect_token.server_to_client_key,
-            receive_key: connect_token.client_to_server_key,
-            timeout_seconds: connect_token.timeout_seconds,
-            expire_timestamp,
-            user_data: connect_token.user_data,
-            replay_protection: ReplayProtection::new(),
-        });
-        pending.last_packet_received_time = self.current_time;
-        pending.last_packet_send_time = self.current_time;
+            Connection {
+                confirmed: false,
+                sequence: 0,
+                client_id: connect_token.client_id,
+                last_packet_received_time: self.current_time,
+                last_packet_send_time: self.current_time,
+                addr,
+                state: ConnectionState::PendingResponse,
+                send_key: connect_token.server_to_client_key,
+                receive_key: connect_token.client_to_server_key,
+                timeout_seconds: connect_token.timeout_seconds,
+                expire_timestamp,
+                user_data: connect_token.user_data,
+                replay_protection: ReplayProtection::new(),
+            },
+        );
 
         Ok(ServerResult::PacketToSend {
             addr,
